@@ -505,6 +505,15 @@ GENERATORS = {
 
 
 def search(prop, failure, unit_res, tier):
+    if unit_res.get('backend') == 'kani' and failure.get('kani'):
+        from . import kani_run
+        k = failure['kani']
+        info = kani_run.playback(k['crate'], k['harness'], k['modfile'])
+        if info.get('test') and info.get('native_failed'):
+            return dict(found=True, cmd=info.get('native_cmd'), input='Kani counterexample (concrete playback test):\n' + info['test'],
+                        observed='native run of the harness body on the real function with these values:\n' + (info.get('native') or '')[-1500:],
+                        expected='every assertion of harness %s holds' % k['harness'])
+        return dict(found=False, note='kani concrete playback: %s' % (info.get('note') or ('test generated but native run did not fail: ' + (info.get('native') or '')[-400:])))
     key = (unit_res['unit'], failure.get('function'))
     g = GENERATORS.get(key)
     if g is None:
